@@ -5,7 +5,7 @@ from __future__ import annotations
 import ast
 
 from ..kinds import KindInterp, Lin, Par, describe
-from ..loader import AnalysisError, World, module_of
+from ..loader import AnalysisError, Incomplete, World, module_of
 from ..mutate import edit_def, remove_stmt, replace_expr
 from ..paths import exception_name, function_paths
 from ..run import Control
@@ -145,6 +145,37 @@ def run(ctx, ck) -> None:
                 has_n = len(n.args) > 1 or any(k.arg == 'n' for k in n.keywords)
                 ck.expect('Z7', has_n, n, 'irfft is given its output length', f'kernel {fn.name} calls irfft without n: the default output length 2*(m-1) is one sample short for every odd FFT size', instance=f'{m} irfft length')
 
+    # ------------------------------------------------------------------ Z10/Z11 symbolic lengths: every slice in bounds, output length = input length
+    from ..lengths import L as LEN_L
+    from ..lengths import Arr, LenInterp, witness
+
+    for m, fn in live.items():
+        li = LenInterp(world, cls.node)
+        try:
+            out = li.run_kernel(fn)
+        except Incomplete as exc:
+            ck.incomplete('Z10', fn, f'kernel {fn.name}: {exc.site}: {exc.why}', instance=f'{m} lengths')
+            continue
+        for node, why in li.problems:
+            ck.bad('Z10', node, f'kernel {fn.name}: {why}', instance=f'{m} shape problem')
+        nob = 0
+        for ob in li.obligations:
+            nob += 1
+            if ob.proof is not None:
+                continue
+            w = witness(ob.expr)
+            if w is not None:
+                ck.bad('Z10', ob.node, f'kernel {fn.name}: {ob.what} fails, e.g. for n={w["n"]}, K={w["K"]}, fft_size={w["fft_size"]} (nblock={w["nblock"]}) the margin is {w["value"]}: '
+                       'a slice goes out of bounds (dynamic slices are clamped silently, static ones truncated) and the method returns wrong values', instance=f'{m} bound')
+            else:
+                ck.incomplete('Z10', ob.node, f'kernel {fn.name}: cannot prove {ob.what} (margin {ob.expr})', instance=f'{m} bound')
+        if not any(o.status != 'ok' and o.rule.endswith('Z10') and f'{m} ' in o.construct for o in ck.obs):
+            ck.ok('Z10', fn, f'kernel {fn.name}: all {nob} slice / convolution bounds hold for every n >= 1, K >= 1, admissible fft_size (symbolic lengths in l, h = K-1, s = fft_size - 2h, q = nblock - 1)', instance=f'{m} bounds')
+        if isinstance(out, Arr):
+            ck.expect('Z11', (out.n - LEN_L).is_zero(), fn, f'kernel {fn.name} returns exactly n values for an input of length n', f'kernel {fn.name} returns {out.n} values for an input of length l: the vectorised signature (n)->(n) is violated (error or wrong shape)', instance=f'{m} output length')
+        else:
+            ck.incomplete('Z11', fn, f'kernel {fn.name}: result is not an array in the length domain', instance=f'{m} output length')
+
     # ------------------------------------------------------------------ Z9 the dense builder is T[i, k] = band[|i - k|]
     _dense_builder(ck, world)
 
@@ -264,5 +295,7 @@ def controls(world: World) -> list[Control]:
         Control('buffer-without-dtype', lambda w: edit_def(w, TOE, 'SymmetricBandToeplitzOperator._apply_overlap_save', lambda fn: replace_expr(fn, 'jnp.zeros(l + x_padding_end, dtype=jnp.result_type(x, band_values))', 'jnp.zeros(l + x_padding_end)')), 'C09.Z4'),
         Control('traced-loop-bound', lambda w: edit_def(w, TOE, 'SymmetricBandToeplitzOperator._apply_overlap_save', lambda fn: replace_expr(fn, 'int(np.ceil((l + overlap) / step_size))', 'int(np.ceil((l + overlap) / step_size) + 0 * x[0])')), 'C09.Z3'),
         Control('dense-offset-slip', lambda w: edit_def(w, TOE, 'dense_symmetric_band_toeplitz', lambda fn: replace_expr(fn, '-n * j + jnp.arange(m) * (n + 1)', '-n * j + jnp.arange(m) * n')), 'C09.Z9'),
+        Control('overlap-buffer-too-short', lambda w: edit_def(w, TOE, 'SymmetricBandToeplitzOperator._apply_overlap_save', lambda fn: replace_expr(fn, 'total_length - overlap - l', 'total_length - overlap - l - half_band_width')), 'C09.Z10'),
+        Control('overlap-output-shifted', lambda w: edit_def(w, TOE, 'SymmetricBandToeplitzOperator._apply_overlap_save', lambda fn: replace_expr(fn, 'y[half_band_width:half_band_width + l]', 'y[half_band_width:half_band_width + l - 1]')), 'C09.Z11'),
         Control('unguarded-negative-slice', lambda w: edit_def(w, TOE, 'SymmetricBandToeplitzOperator._apply_fft', lambda fn: remove_stmt(fn, 'if half_band_width == 0:', prefix=True)), 'C09.Z8'),
     ]
